@@ -166,16 +166,23 @@ Proof.
     destruct (Nat.eqb_spec r ptx); [contradiction|]. rewrite Eg. auto.
 Qed.
 
+Lemma rule_fn_simn n (IH : IHn n) r st rr :
+  pos st <= length buf -> ev (S n) (EName r) (pos st) = Some rr ->
+  simn (text st) (alog st) rr (rule_fn g o (run n) r st).
+Proof.
+  intros Hp H.
+  pose proof (ipush_simn n IH r false false st rr Hp (fun Hx => ltac:(discriminate)) (flag_ok_false _ _ _) H) as (st1 & R & T1 & L1 & P1).
+  unfold rule_fn. rewrite Hast. rewrite R. destruct rr as [[|p1 f1] evs1]; cbn [fst snd] in *.
+  - exists (restore (pos st) (tix st) st1). cbn [fst snd restore text alog]. auto.
+  - exists st1. cbn [fst snd]. auto.
+Qed.
+
 Lemma call_simn n (IH : IHn n) r st rr :
   pos st <= length buf -> ev (S n) (EName r) (pos st) = Some rr ->
   simn (text st) (alog st) rr (call_run g o (run n) r st).
 Proof.
   intros Hp H.
-  pose proof (ipush_simn n IH r false false st rr Hp (fun Hx => ltac:(discriminate)) (flag_ok_false _ _ _) H) as (st1 & R & T1 & L1 & P1).
-  assert (RF : simn (text st) (alog st) rr (rule_fn g o (run n) r st)).
-  { unfold rule_fn. rewrite Hast. rewrite R. destruct rr as [[|p1 f1] evs1]; cbn [fst snd] in *.
-    - exists (restore (pos st) (tix st) st1). cbn [fst snd restore text alog]. auto.
-    - exists st1. cbn [fst snd]. auto. }
+  pose proof (rule_fn_simn n IH r st rr Hp H) as RF.
   unfold call_run. destruct (o_asu o r) eqn:Ea; [|exact RF].
   destruct rr as [[|p1 f1] evs1].
   - exfalso. eapply Hasu; eauto.
